@@ -63,7 +63,7 @@ Value& INTExpression::value(Context & ctx) const
     case Type::TABCHAR:
       try
       {
-        v = Value(Numeric(std::stoll(std::string(val.tabchar()->data(), val.tabchar()->size()))));
+        v = Value(Integer(std::stoll(std::string(val.tabchar()->data(), val.tabchar()->size()))));
       }
       catch (std::invalid_argument& e)
       {
